@@ -573,11 +573,13 @@ Definition shape_ok (k : kind) (s : state) : bool :=
 
 Ltac minv_cases H K :=
   unfold MM.minv, MM.Generic.inv in H; rewrite K in H;
-  match type of H with match ?s with _ => _ end => destruct s; try contradiction end.
+  match type of H with match ?s with _ => _ end =>
+    destruct s as [l|l|tbl ord|t n|t n|r n|h|r|m|tbl ord|f i|f fn i inn|]; try contradiction end.
 
 Ltac sinv_cases H K :=
   unfold SP.set_inv in H; rewrite K in H;
-  match type of H with match ?s with _ => _ end => destruct s; try contradiction end.
+  match type of H with match ?s with _ => _ end =>
+    destruct s as [l|l|tbl ord|t n|t n|r n|h|r|m|tbl ord|f i|f fn i inn|]; try contradiction end.
 
 Ltac r_cases s H K :=
   let q := fresh "q" in destruct H as [q H]; unfold C05.R in H; rewrite K in H;
@@ -1039,7 +1041,8 @@ Proof.
   destruct (IterLinear.linear_state c s) eqn:Hl.
   { rewrite (IterLinear.linear_iter_is_cursor c s cs Hl). apply lin_cursor_nc. }
   pose proof (ginv_shape c s H) as Sh. unfold ginv in H.
-  destruct (ckind c) eqn:K; destruct s; try discriminate Sh; try discriminate Hl;
+  destruct (ckind c) eqn:K; destruct s as [l|l|tbl ord|t n|t n|r n|h|r|m|tbl ord|f i|f fn i inn|];
+    try discriminate Sh; try discriminate Hl;
     unfold IterLinear.linear_state in Hl; rewrite ?K in Hl; try discriminate Hl.
   - (* HashSet *) cbn. intros [Q|[]]. discriminate Q.
   - (* TreeSet *) unfold SP.set_inv in H. rewrite K in H. destruct H as (_ & _ & Hn).
